@@ -106,6 +106,10 @@ def gen_attempts(r: random.Random, cfg: dict, kn: dict, n: int) -> list[dict]:
             step["none"] = True
         if kind == "exc" and r.random() < kn.get("p_timeout_type", 0.1):
             step["timeout_type"] = True
+        elif kind == "exc" and r.random() < kn.get("p_falsy_exc", 0.06):
+            step["falsy"] = True
+        if kind == "exc" and r.random() < kn.get("p_reuse_exc", 0.1):
+            step["reuse"] = True
         if r.random() < kn.get("p_ra", 0.15):
             step["ra"] = r.choice(GRID)
         out.append(step)
@@ -185,6 +189,7 @@ def gen_hooks(r: random.Random, kn: dict, how: str) -> dict:
         "operation": r.choice([None, "op", "fetch"]),
         "timeline": (r.choice([None, True, "obj"]) if how == "execute" else None),
         "abort_if": r.random() < kn.get("p_abort_if", 0.5),
+        "abort_shape": r.choice(["method", "method", "partial", "sized"]),
     }
 
 
@@ -230,6 +235,18 @@ def gen_retry(seed: int, kn: dict | None = None) -> dict:
         # never fires (operations take <= 3 s of virtual time and no real time): sync = real worker-thread path
         # of _call_with_timeout, async = asyncio.wait_for on the SimLoop
         cfg["attempt_timeout_us"] = r.choice([10_000_000, 60_000_000, 3_600_000_000, 2 * cfg["deadline_us"] + 10_000_000])
+    if r.random() < kn.get("p_firing_timeout", 0.0):
+        # per-attempt timeouts that DO fire (operation durations go up to 3 s): sync = simulated single-worker pool
+        # behind _call_with_timeout, async = asyncio.wait_for on the SimLoop; the classifier maps the library's
+        # TimeoutError to `timeout_cls`
+        cfg["attempt_timeout_us"] = r.choice([250_000, 1_000_000, 2_000_000])
+        cfg["timeouts_fire"] = True
+        cfg["timeout_cls"] = r.choice(CLASSES)
+        for c in calls:
+            for st in c["attempts"]:
+                st.pop("parts", None)
+                if r.random() < 0.4:
+                    st["dur"] = cfg["attempt_timeout_us"] + r.choice([1, 1000, 500_000, 2_000_000])
     scn = {"kind": "retry", "seed": seed, "mode": mode, "entry": entry, "how": how, "cfg": cfg,
            "place": place, "hooks": hooks, "clock": gen_clock(r, kn), "calls": calls}
     if cfg["budget"] and cfg["budget"].get("prefill"):
